@@ -551,6 +551,10 @@ def gen_inputs(run):
             for k in range(1, n):
                 nml.append(d * (n - k) + '.' + d * k)
                 nml.append('-' + d * (n - k) + '.' + d * k)
+    # beyond the default precision of the decimal module (28 significant digits): under TOLERANT the number is kept exactly
+    for n in (27, 28, 29, 30, 31, 40, 60):
+        nml += ['1' + '0' * (n - 2) + '1', '-' + '9' * n, '1' * (n - 5) + '.' + '7' * 5, '0.' + '3' * n,
+                '1' + '0' * (n - 2) + '1e5', '123456789' * (n // 9 + 1)]
     inp['NM']['lengths'] = (nml, 1.0)
     inp['SI']['lengths'] = (nml[:: 3] + ['%d' % n for n in range(0, 20000, 37)] + ['0' * k + '9' * n for k in range(4)
                                                                                   for n in range(1, 7)], 1.0)
